@@ -116,11 +116,10 @@ impl NamespaceActor {
         if param.namespace_id.as_ref() == DEFAULT_NAMESPACE {
             return;
         }
-        if !self.already_sync_from_config
-            && param.namespace_id.as_str() == ALREADY_SYNC_FROM_CONFIG_KEY
-        {
-            //标记已同步旧版本数据
+        if param.namespace_id.as_str() == ALREADY_SYNC_FROM_CONFIG_KEY {
+            //标记已同步旧版本数据;它只是镜像中的一个标记,不是命名空间
             self.already_sync_from_config = true;
+            return;
         }
         let param_flag = if param.namespace_id.is_empty() {
             NamespaceFromFlags::SYSTEM.bits()
